@@ -495,6 +495,43 @@ def job_analyze(job):
                     so["diff_recurrences_exc"] = f"{type(ex).__name__}: {str(ex)[:200]}"
         res["sens"] = sout
 
+    # ---- tail bounds, read off the action's printed output at every n (what a user sees)
+    if "tail" in want:
+        import contextlib
+        import io
+        from cli.actions.goals_action import GoalsAction
+        tout = []
+        for tg in job.get("tail_goals", []):
+            rec = {"monom": tg["monom"], "a": tg["a"], "upper": [], "lower": []}
+            for n in range(N + 1):
+                for kind in ("upper", "lower"):
+                    try:
+                        ga = GoalsAction(Namespace(solvability_check=False, at_n=n, after_loop=False, invariants=False,
+                                                   goals=[], tail_bound_moments=tg.get("moments", 2)))
+                        ga.initialize_program(program, rec_builder)
+                        ga.solvers = solvers
+                        buf = io.StringIO()
+                        with contextlib.redirect_stdout(buf):
+                            data = [symengine.sympify(tg["monom"]), symengine.sympify(tg["a"])]
+                            if kind == "upper":
+                                ga.handle_tail_bound_upper_goal(data)
+                            else:
+                                ga.handle_tail_bound_lower_goal(data)
+                        text = buf.getvalue()
+                        line = [l for l in text.splitlines() if f"| n={n})" in l]
+                        if line and "≅" in line[-1]:
+                            head = line[-1].split(" ≅")[0]
+                            val = head.rsplit("<= " if kind == "upper" else ">= ", 1)[1]
+                            rec[kind].append(classify_value(sympy.sympify(val)))
+                        else:
+                            rec[kind].append({"undef": "no numeric line: " + text[-120:]})
+                    except JobTimeout:
+                        raise
+                    except Exception as ex:
+                        rec[kind].append({"undef": f"{type(ex).__name__}: {str(ex)[:100]}"})
+            tout.append(rec)
+        res["tail"] = tout
+
     # ---- moments given termination / central / cumulants
     if "term" in want:
         tout = {}
